@@ -49,7 +49,7 @@ CLAIMS = {
              "threads with seeded delays) are recorded through the callbacks and validated by TLC. The odometer that enumerates the 3^d "
              "neighbours (combinatorial_iterator_t::operator++) is transcribed loop iteration by loop iteration; TLC checks row-major rank "
              "order, exactly one step per call, bounded work and termination for every count vector (<=4 dims x counts <=3; thorough 5 x 4) "
-             "and the behaviours it dumps are replayed on the real iterator (three index types).",
+             "and the behaviours it dumps are replayed on the real iterator (three index types); the candidate lists of nano::local_search for every centre of small grids (2457 neighbourhoods) are validated by TLC (NeighTrace.tla).",
         note="Landscape values are small integers; the fold of a callback is identified from the index sets (k-fold splits); the "
              "trace specification requires only what the property states (not the search strategy)."),
     "C15": dict(
